@@ -8,6 +8,8 @@ use nvh::*;
 use renoir::verif::{ops, ScriptOp};
 
 fn gen(rng: &mut Rng, _i: usize) -> Case {
+    // per-component stream: components run with the same --seed must not draw identical sequences
+    let rng = &mut Rng::new(rng.next() ^ 0x2E02_DE20_0000_0003);
     let cfg = ScriptCfg {
         max_len: 14,
         allow_unsafe: true,
